@@ -89,10 +89,11 @@ const (
 	kGenerators
 	kEditor
 	kCodecs
+	kCopyEditor
 	numKinds
 )
 
-var kindNames = []string{"shard", "labeller", "iterator", "comb", "dawg-query", "dawg-build", "observer", "clique-producer", "clique-consumer", "sets", "dsu", "tsp", "fork-half", "encoders", "sort", "generators", "editor", "codecs"}
+var kindNames = []string{"shard", "labeller", "iterator", "comb", "dawg-query", "dawg-build", "observer", "clique-producer", "clique-consumer", "sets", "dsu", "tsp", "fork-half", "encoders", "sort", "generators", "editor", "codecs", "copy-editor"}
 
 type spec struct {
 	kind int
@@ -874,6 +875,60 @@ func makeTask(s spec, w *world, rec *Rec) func() {
 			}
 			rec.ints("cycles", graph.NumberOfCycles(g))
 		}
+	case kCopyEditor:
+		// values derived from ONE shared parent: each task takes its own Copy / InducedSubgraph /
+		// view of the shared graph and then works only on that
+		seed, count, which := p[0], p[1], p[2]
+		return func() {
+			r := rng(seed)
+			var src graph.EditableGraph = w.dense
+			if which%2 == 1 {
+				src = w.sparse
+			}
+			g := src.Copy()
+			V := []int{}
+			for v := 0; v < src.N(); v++ {
+				if r.Next()%3 != 0 {
+					V = append(V, v)
+				}
+			}
+			view := graph.InducedSubgraph(src, V)
+			sub := src.InducedSubgraph(V)
+			for i := 0; i < count; i++ {
+				n := g.N()
+				switch r.Next() % 6 {
+				case 0:
+					if n > 0 {
+						g.AddEdge(int(r.Next()%uint64(n)), int(r.Next()%uint64(n)))
+					}
+				case 1:
+					if n > 0 {
+						g.RemoveEdge(int(r.Next()%uint64(n)), int(r.Next()%uint64(n)))
+					}
+				case 2:
+					if n > 2 {
+						g.RemoveVertex(int(r.Next() % uint64(n)))
+					}
+				case 3:
+					if n < 11 {
+						g.AddVertex([]int{})
+					}
+				case 4:
+					rec.ints("view-deg", view.Degrees())
+					if view.N() > 0 {
+						rec.ints("view-nb", view.Neighbours(int(r.Next()%uint64(view.N()))))
+					}
+				default:
+					if sub.N() > 1 {
+						sub.AddEdge(0, sub.N()-1)
+					}
+					rec.add(g6of(sub))
+				}
+				rec.add(g6of(g))
+			}
+			rec.ints("deg", g.Degrees())
+			rec.num("clique", graph.CliqueNumber(g))
+		}
 	case kCodecs:
 		seed, n := p[0], p[1]
 		return func() {
@@ -1030,7 +1085,7 @@ func drawScenario(r *driver.Run, cold bool) scenario {
 	case 4:
 		k := t.Range(2, 5)
 		for i := 0; i < k; i++ {
-			sc.specs = append(sc.specs, drawSpec(r, []int{kObserver, kObserver, kEncoders}[t.Draw(3)], thorough))
+			sc.specs = append(sc.specs, drawSpec(r, []int{kObserver, kObserver, kEncoders, kCopyEditor}[t.Draw(4)], thorough))
 		}
 		sc.name = "observers"
 	case 5: // clique producer/consumer pairs
@@ -1097,6 +1152,8 @@ func drawSpec(r *driver.Run, k int, thorough bool) spec {
 	case kGenerators:
 		s.p = [6]int{t.Draw(1000), t.Range(1, 5)}
 	case kEditor:
+		s.p = [6]int{t.Draw(1000), t.Range(1, 25), t.Draw(2)}
+	case kCopyEditor:
 		s.p = [6]int{t.Draw(1000), t.Range(1, 25), t.Draw(2)}
 	case kCodecs:
 		s.p = [6]int{t.Draw(1000), t.Range(1, 8)}
@@ -1556,7 +1613,7 @@ func main() {
 		Property: "C19",
 		Engine:   "sched",
 		Level:    "exploration",
-		Rule: "a case is one seeded (scenario, schedule) pair: 2-6 tasks drawn from a catalogue of 18 task kinds in 10 scenarios (all shards of one search; labellers with own storage; iterators+comb; Dawg queries with own searchers on one shared Dawg next to builders; observers and read-only algorithms on one shared dense/sparse/complement/induced-view graph; AllMaximalCliques producer/consumer pairs over channels of capacity 1-3; sets/dsu/tsp/sort/graph editors/codecs/generators on own values; a checkpoint-restored iterator next to its original; twins = 2-3 identical tasks; mixed); one run in 200 is executed in a fresh process (with its reference solo results computed in yet another fresh process) ('cold start': twins, concurrent pass before the solo passes, fine-grained schedule) so that process-wide lazily initialised state is met concurrently, run as goroutines of which exactly one holds the baton; a seeded policy (coarse quanta, uniform quanta in [1,2Q] for Q in {2,10,100,1000}, <= 5 preemptions at exact yield ordinals, preemption at the j-th visit of a chosen site) decides every context switch at the generated yield points. " +
+		Rule: "a case is one seeded (scenario, schedule) pair: 2-6 tasks drawn from a catalogue of 19 task kinds in 10 scenarios (all shards of one search; labellers with own storage; iterators+comb; Dawg queries with own searchers on one shared Dawg next to builders; observers and read-only algorithms on one shared dense/sparse/complement/induced-view graph; AllMaximalCliques producer/consumer pairs over channels of capacity 1-3; sets/dsu/tsp/sort/graph editors/codecs/generators on own values; a checkpoint-restored iterator next to its original; twins = 2-3 identical tasks; mixed); one run in 200 is executed in a fresh process (with its reference solo results computed in yet another fresh process) ('cold start': twins, concurrent pass before the solo passes, fine-grained schedule) so that process-wide lazily initialised state is met concurrently, run as goroutines of which exactly one holds the baton; a seeded policy (coarse quanta, uniform quanta in [1,2Q] for Q in {2,10,100,1000}, <= 5 preemptions at exact yield ordinals, preemption at the j-th visit of a chosen site) decides every context switch at the generated yield points. " +
 			"Checked: each task's result equals its result run alone on freshly built identical values; the race detector (blind to the baton hand-over, history_size=7) reports nothing; shared values are unchanged; a complete shard set still partitions the classes. Non-trivial = at least 2 context switches; distinct = distinct hashes of the (task, site) sequence at switch points together with the results (distinct interleavings).",
 		Assumptions: []string{
 			"execution is serialised by the simulator: effects of truly parallel execution that do not need a data race (weak memory) are out of reach; the race-detector clause covers them to the extent that they need a race",
